@@ -149,6 +149,14 @@ def known_f9():
     return got != [], f'save(1,[5]); save(1,[]); convert_one_to_many(1) = {got}'
 
 
+def known_f13():
+    m = OneToManyMapLoader('/nonexistent', ['a', 'b'])
+    m.save(1, [5, 6])
+    m.save(1, [5])
+    got = m.convert_many_to_one(6)
+    return got == 1, f'save(1,[5,6]); save(1,[5]); convert_many_to_one(6) = {got} (6 is no longer a member of 1)'
+
+
 def search(target, models):
     wit, cases = [], 0
     for fn in (lambda: search_loader(4), search_lru, search_one_to_many, search_restore):
@@ -163,6 +171,9 @@ def search(target, models):
 
 
 def replay(w):
+    if isinstance(w, dict) and w.get('kind') == 'F13':
+        ok, detail = known_f13()
+        return dict(reproduced=ok, detail=detail)
     if isinstance(w, dict) and w.get('kind') == 'F9':
         ok, detail = known_f9()
         return dict(reproduced=ok, detail=detail)
